@@ -342,7 +342,8 @@ def gen_desc(rng, *, max_n=8, min_n=0, max_up=3, max_down=2, par_kw=None,
             st = {'op': 'falsy', 'id': 'uf', 'mod': rng.randrange(2, 4),
                   'rem': rng.randrange(0, 2),
                   'val': rng.choice(['none', 'none', 'zero', 'empty', 'emptylist',
-                                     'emptydict', 'false'])}
+                                     'emptydict', 'false', 'excobj', 'stopiterobj',
+                                     'filterobj'])}
             b = abs_apply(a, st)
             if b is not None:
                 desc['stages'].append(st)
